@@ -32,6 +32,7 @@ MANIFEST = {
 
 INVS = ["TypeOK", "C17_DepsAreEdges", "C17_Topological", "C17_CyclicRejected", "C17_OnlyCyclicRejected",
         "C17_NothingRunsUnlessNumbered", "C17_RunAfterParents", "C17_SkipExact", "C17_SkipSound"]
+GEN_ACTIONS = ["GNewJob", "GDepend", "GDefine", "GUse", "GDone", "GNumber", "GStartLocal", "GRunLocal", "GSkipLocal", "GEndLocal"]
 ACTIONS = ["NewJobAny", "Depend", "CommandAny", "NumberAny", "StartLocal", "RunLocal", "SkipLocal", "EndLocal"]
 
 
@@ -42,19 +43,17 @@ def consts(**kw):
 
 
 def spec_check(ctx, wd):
-    """(1) exhaustive model checking of the specification itself"""
-    runs = [("2 jobs, 2 resource names, all programs", consts(MaxJobs=2, Names='{"o", "p"}', MaxCmds=2), None)]
+    """exhaustive model checking of the specification with free interleaving of the DSL calls"""
     if ctx.quick:
-        runs.append(("3 jobs, <= 3 dependency edges", consts(MaxJobs=3, MaxCmds=2), 3))
+        runs = [("2 jobs, <= 3 dependency edges", consts(MaxJobs=2, MaxCmds=2, EdgeLimit=3))]
     else:
-        runs.append(("3 jobs, all programs", consts(MaxJobs=3, MaxCmds=2), None))
-    for n, (what, c, bound) in enumerate(runs):
+        runs = [("2 jobs, 2 resource names, all programs", consts(MaxJobs=2, Names='{"o", "p"}', MaxCmds=2)),
+                ("3 jobs, all programs", consts(MaxJobs=3, MaxCmds=2))]
+    for n, (what, c) in enumerate(runs):
         cfg = f"MC{n}.cfg"
-        if bound is not None:
-            c = dict(c, EdgeLimit=bound)
         (wd / cfg).write_text(tlc.mk_cfg(constants=c, invariants=INVS, view="NoCmdView", constraint="EdgeBound"))
         res = tlc.run(wd, "BatchDsl", cfg, workers=ctx.workers, coverage=True)
-        ctx.add_tlc(res, f"exhaustive BatchDsl (local backend): {what}")
+        ctx.add_tlc(res, f"exhaustive BatchDsl, free interleaving (local backend): {what}")
         ctx.require_covered(res, ACTIONS, "BatchDsl")
         for v in res.violations:
             ctx.violation(f"spec:{v.name}", {"config": c, "trace": [(h, s) for h, s in v.trace][-6:]})
@@ -73,36 +72,67 @@ def fail_sets(n, rng, limit):
 def run(ctx):
     _dsl.api()
     wd = tlc.prepare_dir(ctx.build / "tlc", ["dsl"])
-    spec_check(ctx, wd)
+    if not ctx.quick:
+        spec_check(ctx, wd)
 
     # ---- (2) programs from TLC -> real API + LocalBackend ---------------------------------------------
     rng = random.Random(ctx.seed * 7919 + 17)
-    gens = []
+    G = _dsl.GEN_CONSTS
+    # (name, spec constants, generator constants, simulate, failing sets per executed class (None = all), executed classes cap)
     if ctx.quick:
-        gens.append(("ex3", consts(MaxJobs=3, MaxCmds=9), dict(_dsl.GEN_CONSTS, MaxDeps=2, MaxUses=2, MaxEdges=2), None, None))
-        gens.append(("sim4", consts(MaxJobs=4, MaxCmds=9), dict(_dsl.GEN_CONSTS, MaxDeps=5, MaxUses=4, MaxEdges=6, MinLen=6), "num=300", 4))
+        gens = [("ex3", consts(MaxJobs=3, MaxCmds=9), dict(G, MaxDeps=2, MaxUses=2, MaxEdges=2, Undefined="TRUE"), None, 3, None),
+                ("sim4", consts(MaxJobs=4, MaxCmds=9), dict(G, MaxDeps=5, MaxUses=4, MaxEdges=6, MinLen=7), "num=250", 3, 40)]
     else:
-        gens.append(("ex2", consts(MaxJobs=2, Names='{"o", "p"}', MaxCmds=9),
-                     dict(_dsl.GEN_CONSTS, MaxDeps=4, MaxUses=4, MaxEdges=8, FullJobs="FALSE", UsedDefsOnly="FALSE", MaxRefs=2), None, None))
-        gens.append(("ex3", consts(MaxJobs=3, MaxCmds=9), dict(_dsl.GEN_CONSTS, MaxDeps=3, MaxUses=3, MaxEdges=3), None, None))
-        gens.append(("sim4", consts(MaxJobs=4, MaxCmds=9), dict(_dsl.GEN_CONSTS, MaxDeps=6, MaxUses=5, MaxEdges=8, MinLen=6), "num=3000", 6))
-        gens.append(("sim5", consts(MaxJobs=5, Names='{"o", "p"}', MaxCmds=9),
-                     dict(_dsl.GEN_CONSTS, MaxDeps=8, MaxUses=6, MaxEdges=10, MinLen=8, MaxRefs=2), "num=2000", 4))
-    tasks, meta = [], {}
-    nprog = {}
-    for name, c, g, sim, nfail in gens:
-        progs, res = _dsl.generate(ctx, wd, name, {**c, **g, "LateExt": "TRUE"}, simulate=sim, seed=ctx.seed + 1)
-        ctx.add_tlc(res, f"program enumeration {name} ({'simulation ' + sim if sim else 'exhaustive'}): {len(progs)} programs")
+        gens = [("ex2", consts(MaxJobs=2, Names='{"o", "p"}', MaxCmds=9),
+                 dict(G, MaxDeps=4, MaxUses=4, MaxEdges=8, FullJobs="FALSE", UsedDefsOnly="FALSE", Undefined="TRUE", MaxRefs=2), None, None, None),
+                ("ex3", consts(MaxJobs=3, MaxCmds=9), dict(G, MaxDeps=3, MaxUses=3, MaxEdges=3), None, None, None),
+                ("sim4", consts(MaxJobs=4, MaxCmds=9), dict(G, MaxDeps=6, MaxUses=5, MaxEdges=8, MinLen=7), "num=4000", 6, 500),
+                ("sim5", consts(MaxJobs=5, Names='{"o", "p"}', MaxCmds=9),
+                 dict(G, MaxDeps=8, MaxUses=6, MaxEdges=10, MinLen=9, MaxRefs=2), "num=3000", 5, 400)]
+    meta, nprog, tasks = {}, {}, []
+    for name, c, g, sim, nfail, cap in gens:
+        # exhaustive bounds: one TLC run checks the invariants on every canonical program + its run and prints the programs
+        progs, res = _dsl.generate(ctx, wd, name, {**c, **g, "LateExt": "TRUE"}, simulate=sim, seed=ctx.seed + 1,
+                                   full_invariants=None if sim else INVS)
+        ctx.add_tlc(res, f"{'simulated' if sim else 'exhaustive canonical'} programs {name}"
+                         f"{'' if sim else ' + Batch.run() on the spec, all C17 invariants'}: {len(progs)} programs")
+        if not sim:
+            ctx.require_covered(res, GEN_ACTIONS, "BatchDslGen")
+        for v in res.violations:
+            ctx.violation(f"spec:{v.name}", {"config": {**c, **g}, "trace": [(h, s) for h, s in v.trace][-6:]})
         if not progs:
             raise RuntimeError(f"no programs generated for {name}")
         nprog[name] = len(progs)
-        for k, p in enumerate(progs):
+        for k, p in enumerate(progs):  # numbering / rejection of every program (no job is run)
+            key = (name, k, -1)
+            tasks.append((key, p, None, str(ctx.build / "run" / f"{name}-{k}"), ctx.seed))
+            meta[key] = (p, None)
+    results = _dsl.run_local_many(tasks, ctx.workers)
+    # executions: one program per (final dependency sets, always_run flags) class among the numbered ones, each
+    # with all / several sets of failing commands
+    tasks = []
+    nclasses = {}
+    for name, c, g, sim, nfail, cap in gens:
+        classes = {}
+        for key in sorted(k for k in results if k[0] == name):
+            ev = results[key]
+            if ev[-1]["a"] != "Number":
+                continue
+            sig = (json.dumps(ev[-2]["deps"]), tuple(e["always"] for e in ev if e["a"] == "NewJob"))
+            classes.setdefault(sig, key)
+        chosen = sorted(classes.values())
+        if cap is not None and len(chosen) > cap:
+            rng.shuffle(chosen)
+            chosen = sorted(chosen[:cap])
+        nclasses[name] = {"classes": len(classes), "executed": len(chosen)}
+        for (_n, k, _f) in chosen:
+            p = meta[(name, k, -1)][0]
             n = sum(1 for op in p if op["op"] == "NewJob")
-            for f, fs in enumerate(fail_sets(n, rng, nfail if nfail else (8 if ctx.quick else None))):
+            for f, fs in enumerate(fail_sets(n, rng, nfail)):
                 key = (name, k, f)
                 tasks.append((key, p, sorted(fs), str(ctx.build / "run" / f"{name}-{k}-{f}"), ctx.seed))
                 meta[key] = (p, sorted(fs))
-    results = _dsl.run_local_many(tasks, ctx.workers)
+    results.update(_dsl.run_local_many(tasks, ctx.workers))
     import shutil
 
     shutil.rmtree(ctx.build / "run", ignore_errors=True)
@@ -115,7 +145,7 @@ def run(ctx):
     tc = consts(MaxJobs=5, Names='{"o", "p"}', MaxCmds=99, LateExt="TRUE")
     tc["Orders"] = "<- AnyOrders"
     (wd / "Trace.cfg").write_text(tlc.mk_cfg(spec="TraceSpec", constants=tc, invariants=INVS, deadlock=True))
-    tres = tlc.run(wd, "BatchDslTrace", "Trace.cfg", workers=ctx.workers, env={"TRACE_FILE": tf})
+    tres = tlc.run(wd, "BatchDslTrace", "Trace.cfg", workers=min(ctx.workers, 4 if ctx.quick else 8), env={"TRACE_FILE": tf})
     ctx.add_tlc(tres, f"trace validation of {len(lines)} executions of the real API + LocalBackend")
     nev = sum(len(results[k]) for k in keys)
     if not tres.violations and tres.distinct < nev:
@@ -130,7 +160,7 @@ def run(ctx):
                       {"program": prog, "failing_jobs": fs, "position": l, "next_event": nxt, "events": evs,
                        "spec_state": {k: tlc.tlaval.to_py(last[k]) for k in ("phase", "order", "deps", "always", "log", "cancelled") if k in last}})
     # ---- evidence --------------------------------------------------------------------------------------
-    stats = {"rejected": 0, "numbered": 0, "aborted": 0, "with_skips": 0, "with_failures": 0, "resource_edges": 0}
+    stats = {"rejected": 0, "numbered": 0, "executed": 0, "aborted": 0, "with_skips": 0, "with_failures": 0, "resource_edges": 0}
     distinct = set()
     for k in keys:
         ev = results[k]
@@ -139,6 +169,7 @@ def run(ctx):
             stats["rejected"] += 1
         elif "Number" in kinds:
             stats["numbered"] += 1
+            stats["executed"] += "EndLocal" in kinds
         else:
             stats["aborted"] += 1
         stats["with_skips"] += "Skip" in kinds
@@ -146,10 +177,10 @@ def run(ctx):
         stats["resource_edges"] += any(e["a"] == "Command" and any(t["t"] == "ref" and t["r"]["j"] != e["j"] for t in e["toks"]) for e in ev)
         if len(meta[k][0]) > 3:
             distinct.add(json.dumps(meta[k][0], sort_keys=True))
-    if not (stats["rejected"] and stats["with_skips"] and stats["resource_edges"]):
+    if not ctx.viol and not (stats["rejected"] and stats["with_skips"] and stats["resource_edges"]):
         raise RuntimeError(f"vacuous: {stats}")
     ctx.cov.update(traces_validated_against_impl=len(lines), trace_events=nev, evaluations=nev,
-                   distinct_nontrivial=len(distinct), exhaustive=True, programs=nprog, executions=stats,
+                   distinct_nontrivial=len(distinct), exhaustive=True, programs=sum(nprog.values()), programs_by_generator=nprog, executed_classes=nclasses, executions=stats,
                    rule="TLC exhaustive on BatchDsl for the listed bounds; every program TLC enumerated (exhaustive bounds listed in tlc_runs, "
                         "plus simulated larger ones) built and run by the real code with the listed number of failing-command sets; every execution "
                         "validated by TLC; distinct_nontrivial = distinct programs with more than 3 DSL calls")
